@@ -10,6 +10,7 @@ func init() {
 			{Pkg: "reactive", Harness: "set", Weight: 2, Note: "full method mix incl. Replace"},
 			{Pkg: "reactive", Harness: "varutils", Weight: 1, Note: "subscription utilities built on OnUpdate: OnUpdateOnce, OnUpdateWithContext, WithValue, WithNonEmptyValue; ToggleValue, Read"},
 			{Pkg: "reactive", Harness: "setutils", Weight: 1, Note: "Set.WithElements and the ReadOnly view"},
+			{Pkg: "reactive", Harness: "derivedset", Weight: 1, Note: "a subscriber of a DerivedSet (inherited mutations and direct writes) folds what it is told; shares its body with C14's derivedset harness"},
 		},
 		QuickS: 30, ThoroughS: 900,
 		Rule:   "each run draws 1-3 writers x 1-4 operations (Variable: Set/Compute/DefaultTo with unique values, now and then zero or a no-op; Event: Trigger/Set(true)/reset attempts; Set over 4 elements: Add/Delete/AddAll/DeleteAll/Apply/Compute/Replace), 1-3 subscriber tasks x 1-2 subscriptions (OnUpdate with/without the initial-trigger option, OnTrigger) at decision-chosen moments, unsubscribes by the subscriber or by a separate task, callbacks that yield 1-2 times, and a schedule; varutils: 1-2 writers (Set/Compute/ToggleValue+reset/Read) and 1-3 tasks x 1-2 utility subscriptions (OnUpdateOnce, OnUpdateWithContext with 1-2 set-ups per callback, WithValue, WithNonEmptyValue, conditions drawn from a small menu); setutils: the Set writers, 1-2 tasks x 1-2 WithElements subscriptions and a reader of the ReadOnly view; distinct = distinct (script, schedule, event log) hash; non-trivial = at least two recorded decisions",
